@@ -415,7 +415,7 @@ class Scheduler:
                 raise DeadlockError(self.dead[0])
             return
         self._check_budget()
-        if kind == "release" and info and info.endswith("run_function_on_graph.py"):
+        if kind == "release" and info and "uberjob/_execution/" in info.replace("\\", "/"):
             self.engine_release_steps.append(self.steps)
         cur = self.current
         if _DEBUG and cur.obj._ident != _thread.get_ident():
@@ -429,11 +429,11 @@ class Scheduler:
                 raise KeyboardInterrupt()
         if self.settle_main:
             if cur.is_main:
-                if not (inject and kind == "acquire"):
+                if not (inject and kind == "acquire" and info and info.replace("\\", "/").endswith("/queue.py")):
                     return
-                # the first lock the calling thread takes after the interrupt: in run_function_on_graph
-                # that is queue.put(DONE) in shutdown(), just after the stop flag was set. From here on
-                # the calling thread is scheduled like any other.
+                # the first lock *of the work queue* the calling thread takes after the interrupt: that is
+                # queue.put(DONE) in shutdown(), after the stop flag was set (whatever else the clean-up
+                # locks before). From here on the calling thread is scheduled like any other.
                 self.settle_main = False
                 self.log("main_settled", outside_get=self._workers_outside_get())
             # a worker is running although main is runnable: give main priority until it settles
@@ -710,7 +710,7 @@ def _make_namespace(s: Scheduler):
             # of wait(): CPython's Condition.wait leaves the `with` block without holding the
             # lock if a signal lands exactly there (stdlib fragility, not uberjob's behaviour).
             inj = sys._getframe(1).f_code.co_name != "_acquire_restore"
-            s.point("acquire", None, inject=inj)
+            s.point("acquire", self.origin, inject=inj)
             if not self.held:
                 self.held = True
                 if _DEBUG:
